@@ -225,6 +225,18 @@ def replay(finding):
 
 
 # ------------------------------------------------------------------ check ---
+def evidence_dir():
+    """/verif/evidence describes runs against /repo only.  A run against a scratch worktree (VERIF_REPO, used by
+    bin/try_seed) or one that asks for it (VERIF_EVIDENCE_DIR, used by bin/try_mutation) writes its evidence under
+    the git-ignored cache, so a seeded-change run can never overwrite the committed evidence of the clean tree."""
+    d = os.environ.get("VERIF_EVIDENCE_DIR")
+    if d:
+        return d
+    if os.path.realpath(env.REPO) != "/repo":
+        return os.path.join(env.CACHE, "scratch-evidence", os.path.basename(os.path.realpath(env.REPO)))
+    return os.path.join(VERIF, "evidence")
+
+
 def save_replay(prop, finding):
     d = os.path.join(VERIF, "replays", prop)
     os.makedirs(d, exist_ok=True)
@@ -351,8 +363,9 @@ def conclude(prop, tier, seed, results, t0, level, extra):
     ev = dict(property_id=prop, tier=tier, seed=seed, level=level, coverage=cov,
               assumptions=extra.get("assumptions", []), wall_s=round(time.time() - t0, 2),
               violations=len(violations))
-    os.makedirs(os.path.join(VERIF, "evidence"), exist_ok=True)
-    with open(os.path.join(VERIF, "evidence", prop + ".json"), "w") as f:
+    evdir = evidence_dir()
+    os.makedirs(evdir, exist_ok=True)
+    with open(os.path.join(evdir, prop + ".json"), "w") as f:
         json.dump(ev, f, indent=1, default=str)
     for ln in lines:
         print(ln)
